@@ -83,6 +83,7 @@ type Options struct {
 	NoTcPr         bool `json:"no_tc_pr,omitempty"`        // unmerged cells carry no w:tcPr at all (17.4.70: optional)
 	TableStyle     bool `json:"table_style,omitempty"`     // tables reference a TableGrid style and carry w:tblLook
 	ItemStyle      bool `json:"item_style,omitempty"`      // list paragraphs carry pStyle ListParagraph (as Word does)
+	DirectStyled   bool `json:"direct_styled,omitempty"`   // headings made by a direct w:outlineLvl also reference the non-heading style BodyText (17.3.1.20: the paragraph property overrides the style's for this paragraph only)
 
 	// Extra members appended to the canonical list (theme, thumbnails, decoys).
 	Extra []wpmodel.Member `json:"extra,omitempty"`
@@ -118,6 +119,7 @@ func GenOptions(t *rapid.T) Options {
 	o.NoTcPr = rapid.Bool().Draw(t, "no_tcpr")
 	o.TableStyle = rapid.Bool().Draw(t, "table_style")
 	o.ItemStyle = rapid.Bool().Draw(t, "item_style")
+	o.DirectStyled = rapid.IntRange(0, 2).Draw(t, "direct_styled") == 0
 	if rapid.IntRange(0, 3).Draw(t, "extras") == 3 {
 		// parts Word writes besides the ones tabula reads, and a directory entry
 		o.Extra = []wpmodel.Member{
@@ -207,7 +209,7 @@ func (w *writer) needStyles() bool {
 		return true
 	}
 	for _, b := range w.d.Blocks {
-		if b.Kind == wpmodel.BHeading && b.How != wpmodel.HowDirect {
+		if b.Kind == wpmodel.BHeading && (b.How != wpmodel.HowDirect || w.o.DirectStyled) {
 			return true
 		}
 		if b.Kind == wpmodel.BPara && b.Style != "" {
@@ -403,6 +405,9 @@ func (w *writer) paragraph(x *wpmodel.XW, b wpmodel.Block, idx int) {
 	case wpmodel.BHeading:
 		style = HeadingStyleID(b.How, b.Level)
 		outline = b.How == wpmodel.HowDirect
+		if outline && w.o.DirectStyled {
+			style = "BodyText"
+		}
 	case wpmodel.BItem:
 		num = true
 		if w.o.ItemStyle {
